@@ -600,6 +600,10 @@ WORDS = ('a', 'b', 'x', 'Hello', 'world', 'the', 'of', 'text', 'A', 'Zq', 'lorem
 PUNCT = ('.', ',', ';', ':', '!', '?', '-', '--', "'", '"', '(', ')', '=', '+', '/', '<', '>', '|', '@', '*', '`')
 BLANKS = (' ', ' ', ' ', '  ', '\t', '\n', '\n', '\n\n', ' \n ', '\n\n\n', ' \n\n\t')
 ODD = ('&', '#', '#1', '~', '^', '_', 'é', 'ß', '你', '😂', ' ')
+# characters the category table calls Other but str.isalpha / isspace / splitlines / isprintable single out, and
+# boundary code points
+ODD = ODD + ('É', 'α', 'б', '中文', '\x0c', '\x0b', '\x1c', '\x85', '\xa0', '\u2028', '\u2029', '\u3000', '\u0660', '²',
+             '\u200b', '\u0301', '\ufeff', 'ÿ', 'Ā', '\xad', '\u2060', '\uffff', '\U00010000')
 MATH_ATOMS = ('x', 'y', 'a', 'b', 'n', 'i', '0', '1', '2', '+', '-', '=', '<', '>', ',', '.', ' ', ' ', '!', '|',
               '/', '\\,', '\\;', '\\|', '&', '\n', '\\\\', '\\{', '\\}', "'")
 
